@@ -122,8 +122,9 @@ pub trait CopyOps<T> : TooDeeOpsMut<T> {
         assert!(bottom_right.1 <= num_rows);
         let cols = bottom_right.0 - top_left.0;
         let rows = bottom_right.1 - top_left.1;
-        assert!(dest.0 + cols <= num_cols);
-        assert!(dest.1 + rows <= num_rows);
+        // written without `dest + size` so that a huge `dest` cannot wrap around when overflow checks are off
+        assert!(dest.0 <= num_cols && cols <= num_cols - dest.0);
+        assert!(dest.1 <= num_rows && rows <= num_rows - dest.1);
         // Ensure that we don't copy over src before copying it to dest.
         match top_left.1.cmp(&dest.1) {
             Ordering::Less => {
